@@ -219,10 +219,21 @@ def make_bodies_factory(cfg, program):
                     results[t].append(apply(c, op))
             return run
 
+        peak = [0]
+
+        def monitor():
+            # state invariant, evaluated at every scheduling point: the cache never *holds* more than max_size items
+            # (the raw dict size: what any reader that does not take the lock - keys(), items(), iteration - sees)
+            n = dict.__len__(c)
+            if n > peak[0]:
+                peak[0] = n
+
         def harvest(s):
             o = finalize(cfg, c, results)
             o['aborted'] = s.aborted
+            o['peak_len'] = peak[0]
             return o
+        harvest.monitor = monitor
         return [body(t) for t in range(len(program))], harvest
     return make_bodies
 
@@ -244,6 +255,8 @@ def classify(cfg, program, obs, serial):
         out.append(('lock left held', 'lock free after all threads finished', obs['lock_free']))
     if obs['len'] > cfg['max_size']:
         out.append(('over capacity', cfg['max_size'], obs['len']))
+    elif obs.get('peak_len', 0) > cfg['max_size']:
+        out.append(('over capacity at some instant during the execution', cfg['max_size'], obs['peak_len']))
     if isinstance(obs['eviction_order'], tuple) and obs['eviction_order'][:1] in (('unusable',), ('over capacity',)):
         out.append(('cache unusable afterwards', 'further inserts work', obs['eviction_order']))
     if outcome_key(obs) not in serial:
